@@ -5787,7 +5787,7 @@ def format_float16(value):
             field = f"{value:16.2f}"
         elif value < 100000000000000.0:
             field = f"{value:16.1f}"
-        elif value >= 999999999999999.5:
+        elif float(value) >= 999999999999999.5:
             field = _format_scientific16(value)
             return field
         else:
